@@ -11,14 +11,15 @@
 (*                           switched back on; each violates the strict invariant named there       *)
 (* MC_AdtLayout_mutant.cfg : MhdrFileRelative = TRUE, must violate MhdrPointsAtNamed (hand-run)     *)
 EXTENDS AdtLayout
-CodeDeviations   == {"Pad8", "MtxfAlways"}
-LegacyDeviations == {"Pad8", "McinExcl", "MtxfToEof", "RefsTriple", "InjectMfbo", "MclqIncl", "MtxfAlways"}
+CodeDeviations   == {"Pad8", "MtxfAlways", "BmeshNotMop"}
+LegacyDeviations == {"Pad8", "McinExcl", "MtxfToEof", "RefsTriple", "InjectMfbo", "MclqIncl", "MtxfAlways", "BmeshNotMop"}
 NoDeviations     == {}
 DevMcinExcl   == CodeDeviations \cup {"McinExcl"}
 DevMtxfToEof  == CodeDeviations \cup {"MtxfToEof"}
 DevRefsTriple == CodeDeviations \cup {"RefsTriple"}
 DevInjectMfbo == CodeDeviations \cup {"InjectMfbo"}
 DevMclqIncl   == CodeDeviations \cup {"MclqIncl"}
+PatchedBmesh  == CodeDeviations \ {"BmeshNotMop"}
 
 \* ---- strict invariants (do not consult Deviations): what the repaired code and the format satisfy
 \* no rebuilt file is longer than its predecessor (the first rebuild may shrink when the detected version
@@ -29,6 +30,10 @@ StrictMcinSize == Walked => \A j \in 1..NK : McinSizeDelta(Observed, j) = 0
 \* the parser accepts every file the serializer produced
 ParseNeverFails == apc # "parsefail"
 \* parse reports exactly the sub-chunks that were written; a rebuild carries exactly the parsed optional kinds
+\* parse reports every optional top-level kind that was written (violated by "BmeshNotMop"; hand-run
+\* MC_AdtLayout_devBmeshNotMop.cfg = code with fixes/C14-blend-mesh-marks-mop.patch applied must satisfy it,
+\* MC_AdtLayout.cfg does not list it while the deviation is in the code)
+ParseKeepsOpts == apc \in {"rebuild", "done"} => \A kd \in aopts \ aparse.opts : kd = "MTXF" /\ aver < WotLK
 ParseKeepsSubs == apc \in {"rebuild", "done"} => aparse.subs = SubsOf
 RebuildKeepsOpts == (around > 0 /\ apc = "MVER") => aopts = aparse.opts
 =============================================================================
